@@ -7,5 +7,5 @@ rep=core.Report(); mod.run(sys.argv[2] if len(sys.argv)>2 else 'quick',0,rep)
 print('evals',rep.evaluations,'nviol',rep.nviolations)
 for f,(n,ex) in sorted(rep.known.items()): print('KNOWN',f,n,json.dumps(ex)[:300])
 rep.violations.sort(key=lambda v: len(json.dumps(v['case'])))
-for v in rep.violations[:25]: print('VIOL',json.dumps(v)[:600])
+for v in rep.violations[:12]: print('VIOL',json.dumps(v)[:260])
 print(rep.counters); print(rep.errors)
